@@ -81,11 +81,15 @@ theorem resolve_module_alias (e : Env) (scope mid c : Nat) (so mo : Obj) (al x :
     rw [show e.st.objs.length + 1 = (e.st.objs.length) + 1 from rfl]
     unfold localName
     rcases hmm with hmm | hmm <;> simp [hmo, hmm, hx, hcp]
+  have hc1 : componentName e scope true al = localName e (fuelOf e) scope al := by
+    unfold componentName; simp [hs]
+  have hc2 : componentName e mid false x = localName e (fuelOf e) mid x :=
+    componentName_contents false hmo hx
   unfold resolveName expandName
   unfold expandLoop
-  simp only [hl1, Bool.not_true, Bool.and_false, Bool.false_eq_true, if_false, hmid]
+  simp only [hc1, hl1, Bool.not_true, Bool.and_false, Bool.false_eq_true, if_false, hmid]
   unfold expandLoop
-  simp [hl2, hne, hreg]
+  simp [hc2, hl2, hne, hreg]
 
 /-- the relative-import rule, restated for this property -/
 theorem relative_level_c04 (mp : Path) (isPkg : Bool) (level : Nat) (h : 1 ≤ level) :
